@@ -399,7 +399,7 @@ start_client = REG.unit(Unit(
         ("task-not-cancelled-yet", "not ghost('task_cancelled') and not ghost('task_awaited')"),
         ("task-created-iff-local-set", "ghost('task_created') == (send_task is not None)"),
     ])},
-    props=["C06", "C13", "C15", "C19", "C18"],
+    props=["C06", "C13", "C15", "C19", "C18", "C03"],
     ghost_init=ghost_init, setup=setup_start_client,
     canaries=[("never-cleans-up", "ghost('unsub_all_calls') == 0")],
 ))
@@ -423,6 +423,8 @@ start_client.param_defaults = {
 }
 
 start_client.obligation_props = [
+    # C03: an event storage refused (forged, unauthentic) is never acknowledged with OK=true
+    ("iter:ok-false-when-storage-refuses", ["C06", "C03"]), ("iter:ok-flag-is-storage-result", ["C06", "C03"]),
     ("iter:one-ok-per-event", ["C06"]), ("iter:at-most-one-ok", ["C06"]), ("iter:ok-", ["C06"]), ("iter:event-stored-at-most-once", ["C06"]),
     ("iter:no-ok-without-event", ["C06"]),
     ("iter:refused-req", ["C13"]), ("iter:accepted-req", ["C13"]), ("iter:accepted-req-has-a-sender", ["C13"]), ("iter:req-reaches", ["C13"]), ("iter:subscribe-only-for-req", ["C13"]),
